@@ -365,7 +365,6 @@ type Prepared struct {
 	Any   *any_j5t.Any
 }
 
-var prepCodec = codec.NewCodec()
 
 func prepare(spec OpSpec) *Prepared {
 	ti := catByName[spec.Type]
@@ -377,7 +376,7 @@ func prepare(spec OpSpec) *Prepared {
 	p.Msg = m.Interface()
 	switch spec.Kind {
 	case "decode":
-		js, err := safeEncode(prepCodec, m)
+		js, err := safeEncode(codec.NewCodec(), m)
 		if err != nil {
 			js = []byte(`{}`)
 		}
@@ -385,7 +384,7 @@ func prepare(spec OpSpec) *Prepared {
 	case "query":
 		p.Query = buildQuery(m, spec.Mutate, spec.ValSeed)
 	case "decode_any":
-		js, err := safeEncode(prepCodec, m)
+		js, err := safeEncode(codec.NewCodec(), m)
 		a := &any_j5t.Any{TypeName: ti.Name}
 		if err == nil && spec.ValSeed%2 == 0 {
 			a.J5Json = mutateJSON(js, spec.Mutate, spec.ValSeed)
@@ -446,7 +445,7 @@ func buildQuery(m protoreflect.Message, mutate int, seed uint64) url.Values {
 			}
 		case fd.Kind() == protoreflect.MessageKind:
 			if rng.Bool(0.5) {
-				js, err := safeEncode(prepCodec, m.Get(fd).Message())
+				js, err := safeEncode(codec.NewCodec(), m.Get(fd).Message())
 				if err == nil {
 					q.Set(name, string(js))
 				}
